@@ -87,9 +87,9 @@ theorem f3_inputs_now_protocol_errors :
     -- `[48,1,{"enc_algo":"","enc_serializer":"x_ser"},"a.b",b"zz"]`: a falsy `enc_algo` that is not None
     errClass? (unserializeOne oracles (.list [.int 48, .int 1,
       .dict [(cs!"enc_algo", .str []), (cs!"enc_serializer", .str cs!"x_ser")], .str cs!"a.b", .bytes [122, 122]])) = some .protocol ∧
-    -- `[2,1,{"roles":{"broker":{}},"realm":1}]`: WELCOME `realm` of the wrong type
+    -- `[2,1,{"roles":{"broker":{}},"authid":1}]`: WELCOME `authid` of the wrong type
     errClass? (unserializeOne oracles (.list [.int 2, .int 1,
-      .dict [(cs!"roles", .dict [(cs!"broker", .dict [])]), (cs!"realm", .int 1)]])) = some .protocol ∧
+      .dict [(cs!"roles", .dict [(cs!"broker", .dict [])]), (cs!"authid", .int 1)]])) = some .protocol ∧
     -- `[35,5,{"subscription":7}]`: UNSUBSCRIBED with a subscription detail but request ≠ 0
     errClass? (unserializeOne oracles (.list [.int 35, .int 5, .dict [(cs!"subscription", .int 7)]])) = some .protocol ∧
     -- `[48,1,{},"a.b","x"]`: CALL with a `str` where the payload / args go
@@ -301,6 +301,28 @@ theorem parse_strict_spec_but_publish (v : WVal) (σ : Schema) (m : Msg) (h : un
 example : (match unserializeOne oracles (.list [.int 48, .int 1, .dict [(cs!"caller", .int 7)], .str cs!"a.b", .list [.int 1]]) with
     | .ok (σ, m) => σ.name == cs!"Call" && (σ.specViolations Uri.Spec.ok m).isEmpty
     | .error _ => false) = true := by decide +kernel
+
+/-- details that the WAMP spec makes URIs are checked as URIs: WELCOME `realm` "not a uri!!", EVENT `topic` "a..b#",
+INVOCATION `procedure` ".." are rejected with `InvalidUriError` (accepted as plain strings before the repair) -/
+theorem uri_details_rejected :
+    errClass? (unserializeOne oracles (.list [.int 2, .int 1,
+      .dict [(cs!"roles", .dict [(cs!"broker", .dict [])]), (cs!"realm", .str cs!"not a uri!!")]])) = some .invalidUri ∧
+    errClass? (unserializeOne oracles (.list [.int 36, .int 1, .int 2, .dict [(cs!"topic", .str cs!"a..b#")]])) = some .invalidUri ∧
+    errClass? (unserializeOne oracles (.list [.int 68, .int 1, .int 2, .dict [(cs!"procedure", .str cs!"..")]])) = some .invalidUri := by
+  decide +kernel
+
+/-- the Spec's own field table (written from the WAMP spec by class and attribute name, not read from the schemas) is
+honoured by the parser model: every entry is an option the model checks as that kind — part of `schemas_specReady`,
+hence of `parse_strict_spec_partial`.  Classifying one of these fields as a plain `str`/`int` in Messages.lean (as
+`Welcome.realm`, `Event.topic`, `Invocation.procedure` were) makes this fail to build. -/
+theorem spec_table_covered : ∀ σ ∈ all25, σ.tableCovered = true := by
+  have h : all25.all (fun σ => σ.tableCovered) = true := by decide
+  exact fun σ hσ => List.all_eq_true.mp h σ hσ
+
+/-- every class named in the table exists, and the table has 17 entries -/
+theorem spec_table_classes :
+    specDetailTable.all (fun e => all25.any (fun σ => σ.name == e.1 && σ.fieldNames.contains e.2.1)) = true ∧
+    specDetailTable.length = 17 := by decide
 
 theorem not_parseStrictSpec : ¬ ParseStrictSpec := by
   intro h
